@@ -564,6 +564,14 @@ func ruleR39R40(c *Ctx) {
 						allowed = append(allowed, edge{gd.b, gd.succ, "empty tree"})
 					}
 				}
+				// explicit emptiness test of the stack: len(q) == 0
+				if lc, ok := ast.Unparen(be.X).(*ast.CallExpr); ok && isBuiltinCall(info, lc, "len") {
+					if tv, has := info.Types[be.Y]; has && tv.Value != nil && tv.Value.ExactString() == "0" {
+						if (be.Op == token.EQL && gd.atom.val) || (be.Op == token.NEQ && !gd.atom.val) {
+							allowed = append(allowed, edge{gd.b, gd.succ, "stack empty"})
+						}
+					}
+				}
 				// key above the upper bound: Compare(key, bound) > 0 true edge (roles checked by R13)
 				if cc, ok := ast.Unparen(be.X).(*ast.CallExpr); ok && m.calleeName(cc) == "bytes.Compare" && be.Op == token.GTR && gd.atom.val {
 					allowed = append(allowed, edge{gd.b, gd.succ, "key above the upper bound"})
@@ -657,7 +665,13 @@ func ruleR39R40(c *Ctx) {
 				}
 				n++
 				key := tk.Name + ".Prefix result is the filtering scan"
-				call, isCall := ast.Unparen(rs.Results[0]).(*ast.CallExpr)
+				res := ast.Unparen(rs.Results[0])
+				if v := identVar(info, res); v != nil {
+					if def := singleDef(info, u.Body, v); def != nil {
+						res = ast.Unparen(def)
+					}
+				}
+				call, isCall := res.(*ast.CallExpr)
 				name := ""
 				if isCall {
 					name = m.calleeName(call)
